@@ -905,6 +905,13 @@ class TextXMetaMetaModel:
             )
         return self._metamodel
 
+    def __getitem__(self, name):
+        """
+        Search for and return class of the textX grammar language with the
+        given name. Used when a grammar references the textX language.
+        """
+        return self.metamodel[name]
+
     def model_from_str(self, model_str, debug=None, **kwargs):
         """
         Instantiates meta-model (a.k.a. textX model) from the given string.
